@@ -371,3 +371,11 @@ Section ZSkip.
       split; [mix_period|]. next_period. exact I.
   Qed.
 End ZSkip.
+
+(* KEPT FINDING: solve() of a model without periods — SolutionError ('Object `span` is empty') from the Python engine,
+   IndexError ('Too few periods (0) ... for the lags') from FortranEngine.solve, which has no such test *)
+Definition state_empty : fstate := mkState [[]; []; []] [] [] [].
+Lemma empty_span_witness :
+  snd (P_solve_se no_or prog1 desc1 (opts1 100 0 true ERaise) None None state_empty) = XL (Raise (SolutionError None)) /\
+  snd (F_solve_se no_or prog1 fmod1 desc1 (opts1 100 0 true ERaise) FRaise None None state_empty) = XL (Raise IndexError).
+Proof. split; vm_compute; reflexivity. Qed.
